@@ -110,6 +110,32 @@ def run(tier, mode):
             n_or += 1
             if got != canon:
                 fail('half_then_bare_quarters', {'text': text, 'clean_qq': cq}, got, canon)
+    # under clean_qq, bare quarters anywhere in a chain (with any joiner) are aliquots: same canonical text, and a fixed point
+    for i in range(150 if tier == 'quick' else 1500):
+        chain = [r.choice(COMPS) for _ in range(r.choice([2, 2, 3, 3, 4]))]
+        text = ''
+        for k, c in enumerate(chain):
+            sp = c if (len(c) == 2 and r.random() < 0.5) else r.choice(spellings(c))
+            if k > 0:
+                j = r.choice(JOINERS)
+                if j == '' and (text[-1] not in '¼½24' and not (text[-1].isupper() and len(chain[k - 1]) == 2 and sp == c)):
+                    j = ' '
+                text += j
+            text += sp
+        texts.append(text)
+        canon = ''.join(canon1(c) for c in chain)
+        got = H.call(scrub_aliquots, text, True)
+        n_or += 1
+        if got != canon:
+            fail('bare_quarters_clean_qq', {'chain': chain, 'text': text, 'clean_qq': True}, got, canon)
+        elif H.call(scrub_aliquots, got, True) != got:
+            fail('fixed_point', {'chain': chain, 'text': text, 'clean_qq': True}, H.call(scrub_aliquots, got, True), got)
+        else:
+            a = H.call(lambda: pytrs.Tract(text, parse_qq=True, config='clean_qq'))
+            b = H.call(lambda: pytrs.Tract(canon, parse_qq=True, config='clean_qq'))
+            n_or += 1
+            if isinstance(a, H.Exn) or isinstance(b, H.Exn) or (a.qqs, a.lots, a.pp_desc) != (b.qqs, b.lots, b.pp_desc):
+                fail('same_result', {'chain': chain, 'text': text, 'config': 'clean_qq'}, a if isinstance(a, H.Exn) else [a.pp_desc, a.qqs[:4]], b if isinstance(b, H.Exn) else [b.pp_desc, b.qqs[:4]])
     # bare quarters
     for q in ['NE', 'NW', 'SE', 'SW']:
         for ctx in [('', ''), ('', ', Lot 1'), ('Lot 2, ', ''), ('; ', '; ')]:
